@@ -88,7 +88,8 @@ Definition nsc_ack (c : ns_cfg) (sid : Z) (s : ns_st) (q : list nsc_node) (mid :
   | Some (n, q') =>
     match nsc_dec_drain c sid s q' with
     | (s1, q1, o) =>
-      (ns_mkst (ns_open s1) (ns_est s1) (ns_act s1) (ns_dq s1) (ns_sq s1) (mid :: ns_lg s1), q1, o)
+      (ns_mkst (ns_open s1) (ns_est s1) (ns_act s1) (ns_dq s1) (ns_sq s1)
+               (if ns_client c then mid :: ns_lg s1 else ns_lg s1), q1, o)
     end
   end.
 
@@ -159,7 +160,7 @@ Definition nsc_fail (c : ns_cfg) (sid : Z) (s : ns_st) (q : list nsc_node) (reas
   else
     let held := ns_drops reason (ns_dq s) in
     let sent_nack := match mine, filter ns_ncon (ns_dq s) with [], [] => false | _, _ => true end in
-    (ns_mkst false (ns_udp c) 0 [] [] [],
+    (ns_mkst (negb (ns_client c)) (ns_udp c) 0 [] [] [],
      filter (fun n => negb (nsc_mine sid n)) q,
      first ++ held ++ (if sent_nack then [] else fallback) ++ ns_nacks reason mine).
 
